@@ -43,13 +43,16 @@ func (wl *WhopLoc) Eval(s *Scope, depth int) Object {
 }
 
 func (wl *WhopLoc) Continue(s *Scope, args List, depth int) Object {
-	for wl.Current++; wl.Current < len(wl.Method.Combinations); wl.Current++ {
-		wrap := wl.Method.Combinations[wl.Current].Wrap
+	// The location itself is left unchanged so that a second call-next-method
+	// (or a next-method-p before it) from the same wrapper continues from the
+	// same place.
+	for i := wl.Current + 1; i < len(wl.Method.Combinations); i++ {
+		wrap := wl.Method.Combinations[i].Wrap
 		if wrap == nil {
 			continue
 		}
 		ws := s.NewScope()
-		ws.Let("~whopper-location~", &WhopLoc{Method: wl.Method, Current: wl.Current + 1})
+		ws.Let("~whopper-location~", &WhopLoc{Method: wl.Method, Current: i})
 		if lam, ok := wrap.(*Lambda); ok {
 			lam.Closure = ws
 		}
@@ -59,8 +62,8 @@ func (wl *WhopLoc) Continue(s *Scope, args List, depth int) Object {
 }
 
 func (wl *WhopLoc) HasNext() bool {
-	for wl.Current++; wl.Current < len(wl.Method.Combinations); wl.Current++ {
-		if wl.Method.Combinations[wl.Current].Wrap != nil {
+	for i := wl.Current + 1; i < len(wl.Method.Combinations); i++ {
+		if wl.Method.Combinations[i].Wrap != nil {
 			return true
 		}
 	}
